@@ -548,7 +548,7 @@ int cmd_run(const Args &a) {
                 res.set("known_finding_hit", r1.sig);
             } else {
                 // explicit schedule
-                if (!r1.strace.empty() || !r1.cls.compare(0, 5, "crash") == 0) {
+                if (r1.cls.compare(0, 5, "crash") != 0 && r1.cls != "sanitizer" && r1.cls != "hang") {
                     Plan q = p; q.sched_explicit = true; q.sched = r1.strace;
                     ChildResult r3 = run_child(q, armed);
                     if (r3.ok && r3.violated && r3.prop == armed && r3.cls == r1.cls) p = q;
